@@ -1003,7 +1003,7 @@ func (d *drv) quiet(what string, base int64) {
 	}
 	e := vt.Ev{"ev": "quiet", "what": what, "count": c, "opened_ro": b2i(d.openedRO)}
 	if c != 0 {
-		e["ops"] = d.lastMut
+		e["ops"] = append([]string{}, d.lastMut...) // never null: the JSON reader of the validator rejects it
 		var fts []string
 		for ft := range d.mutFt {
 			fts = append(fts, ft)
